@@ -324,6 +324,9 @@ VL(ok, p, why, lvl) == IF ok THEN {} ELSE {<<p, why, lvl>>}
 V(ok, p, why) == VL(ok, p, why, IF p = "C15" THEN 1 ELSE IF p = "C05" THEN 2 ELSE 3)
 V0(ok, p, why) == VL(ok, p, why, 0)
 
+\* the same tasks (origin, destination) at the same positions - whatever payloads they show
+SameOD(a, b) == Len(a) = Len(b) /\ \A q \in 1 .. Len(a) : a[q][1] = b[q][1] /\ a[q][2] = b[q][2]
+
 Unchanged(tk, e) == e.act = tk.obs.act /\ e.ia = tk.obs.ia /\ e.prev = tk.obs.prev /\ e.plan = tk.obs.plan /\ e.on = tk.obs.on
 
 \* lifecycle deliveries needed to go from active state a to state d
@@ -435,8 +438,11 @@ CheckCb(tk, e, tk2) ==
     \cup V0(e.pfl = 1, "C10", "the plan's iterators, first(), last() and emptiness test (mutable and const forms) do not describe one sequence")
     \cup V0(e.pfl2 = 1, "C10", "a read-only view of the plan obtained before the plan was edited no longer describes the plan (iteration, first(), last(), emptiness)")
     \cup V(CtrlKind(e.m) >= 1 /\ ~step /\ tk.incall /\ tk.dpos > 0 /\ ~(IsPlanCb(tk.dm) /\ tk.dpos = Len(DeclOrder(tk.dm, tk.ds))) /\ HasPlanAct(tk.lastacts)
-             => pn = pb,
+             => SameOD(pn, pb),
            "C10", "the plan seen after plan edits is not the sequence of tasks appended and not removed")
+    \cup V(CtrlKind(e.m) >= 1 /\ ~step /\ tk.incall /\ tk.dpos > 0 /\ ~(IsPlanCb(tk.dm) /\ tk.dpos = Len(DeclOrder(tk.dm, tk.ds))) /\ HasPlanAct(tk.lastacts)
+             /\ SameOD(pn, pb) => pn = pb,
+           "C07", "a task in the plan shows a payload other than the one it was appended with")
     \cup V(CtrlKind(e.m) >= 1 /\ ~step /\ tk.incall /\ tk.dpos > 0 /\ ~(IsPlanCb(tk.dm) /\ tk.dpos = Len(DeclOrder(tk.dm, tk.ds))) /\ ~HasPlanAct(tk.lastacts)
              => pn = pb,
            "C08", "the plan changed outside the plan step although no callback edited it")
@@ -533,15 +539,25 @@ CheckRet(tk, e, tk2) ==
             /\ e.plast = (IF e.plan # <<>> THEN Last(e.plan) ELSE NoT), "C10", "first()/last()/emptiness test disagree with iteration")
     \cup V0(Len(e.plan) <= Cap, "C10", "more tasks than the task capacity")
     \cup V0(e.pfl = 1, "C10", "a read-only view of the plan obtained before the operation no longer describes the plan afterwards")
-    \cup V(tk.op = "pc" => e.r = (IF Len(pb) < Cap THEN 1 ELSE 0) /\ e.plan = (IF Len(pb) < Cap THEN Append(pb, <<tk.oa, tk.ob, 0>>) ELSE pb),
+    \cup V(tk.op = "pc" => e.r = (IF Len(pb) < Cap THEN 1 ELSE 0) /\ SameOD(e.plan, IF Len(pb) < Cap THEN Append(pb, <<tk.oa, tk.ob, 0>>) ELSE pb),
            "C10", "append succeeds exactly when fewer than capacity tasks are present, else leaves the plan untouched")
-    \cup V(tk.op = "pw" => e.r = (IF Len(pb) < Cap THEN 1 ELSE 0) /\ e.plan = (IF Len(pb) < Cap THEN Append(pb, <<tk.oa, tk.ob, tk.opp>>) ELSE pb),
+    \cup V(tk.op = "pw" => e.r = (IF Len(pb) < Cap THEN 1 ELSE 0) /\ SameOD(e.plan, IF Len(pb) < Cap THEN Append(pb, <<tk.oa, tk.ob, tk.opp>>) ELSE pb),
            "C10", "append (with payload) succeeds exactly when fewer than capacity tasks are present, else leaves the plan untouched")
-    \cup V(tk.op = "pr" => e.r = (IF tk.oa < Len(pb) THEN 1 ELSE 0) /\ e.plan = (IF tk.oa < Len(pb) THEN RemoveAt(pb, tk.oa + 1) ELSE pb),
+    \cup V(tk.op = "pr" => e.r = (IF tk.oa < Len(pb) THEN 1 ELSE 0) /\ SameOD(e.plan, IF tk.oa < Len(pb) THEN RemoveAt(pb, tk.oa + 1) ELSE pb),
            "C10", "removing through an iterator disturbed the other tasks")
+    \* (the same three, for the payloads the tasks show)
+    \cup V(tk.op \in {"pc", "pw", "pr"} =>
+             LET want == CASE tk.op = "pc" -> IF Len(pb) < Cap THEN Append(pb, <<tk.oa, tk.ob, 0>>) ELSE pb
+                           [] tk.op = "pw" -> IF Len(pb) < Cap THEN Append(pb, <<tk.oa, tk.ob, tk.opp>>) ELSE pb
+                           [] OTHER        -> IF tk.oa < Len(pb) THEN RemoveAt(pb, tk.oa + 1) ELSE pb
+             IN  SameOD(e.plan, want) => e.plan = want,
+           "C07", "after a plan edit a task shows a payload other than the one it was appended with")
     \cup V(tk.op = "px" => e.plan = <<>>, "C10", "clear() left tasks in the plan")
-    \cup V(~step /\ tk.dpos > 0 /\ ~(IsPlanCb(tk.dm)) /\ HasPlanAct(tk.lastacts) /\ tk.op \notin {"exit", "dtor", "load"} /\ e.act # NONE => e.plan = pb,
+    \cup V(~step /\ tk.dpos > 0 /\ ~(IsPlanCb(tk.dm)) /\ HasPlanAct(tk.lastacts) /\ tk.op \notin {"exit", "dtor", "load"} /\ e.act # NONE => SameOD(e.plan, pb),
            "C10", "the plan seen after plan edits is not the sequence of tasks appended and not removed")
+    \cup V(~step /\ tk.dpos > 0 /\ ~(IsPlanCb(tk.dm)) /\ HasPlanAct(tk.lastacts) /\ tk.op \notin {"exit", "dtor", "load"} /\ e.act # NONE /\ SameOD(e.plan, pb)
+             => e.plan = pb,
+           "C07", "a task in the plan shows a payload other than the one it was appended with")
     \cup V(~step /\ tk.dpos > 0 /\ ~(IsPlanCb(tk.dm)) /\ ~HasPlanAct(tk.lastacts) /\ tk.op \notin {"exit", "dtor", "load"} /\ e.act # NONE => e.plan = pb,
            "C08", "the plan changed outside the plan step although no callback edited it")
     \cup V(~step /\ tk.dpos = 0 /\ tk.op \notin {"exit", "dtor", "load", "pc", "pw", "pr", "px", "ctor", "enter", "re"} /\ e.act # NONE => e.plan = pb,
